@@ -189,6 +189,29 @@ fn adversarial() -> Vec<(String, Vec<u8>)> {
         }
         v.push((format!("endless chain of unknown categories ({:#06x})", l), img2));
     }
+    // categories of every known type whose header sits just below the top of the 16-bit byte / word address
+    // space (reached through one unknown category), with data that claims more than the space holds
+    for w in [0x7feeusize, 0x7ff0, 0x7ff8, 0xffee, 0xfff0, 0xfff8] {
+        for ty in [10u16, 30, 40, 41, 42, 50, 51] {
+            for len in [0x0100u16, 0x7fff] {
+                for fill in 0..3 {
+                    let mut img = vec![0u8; 0x20000];
+                    put16(&mut img, 0x40, 20);
+                    put16(&mut img, 0x41, (w - 0x42) as u16);
+                    put16(&mut img, w, ty);
+                    put16(&mut img, w + 1, len);
+                    let b = if fill == 1 { 0x05 } else { 0xff };
+                    for x in img[(w + 2) * 2..].iter_mut() {
+                        *x = b;
+                    }
+                    if fill == 2 {
+                        img[(w + 2) * 2] = 5;
+                    }
+                    v.push((format!("category {} of {:#06x} words at word {:#06x}, top of the address space, fill {}", ty, len, w, fill), img));
+                }
+            }
+        }
+    }
     // size word
     for sw in [510u16, 511, 512, 0xffff] {
         let mut img = base[0].1.image();
